@@ -27,3 +27,17 @@ Theorem quads_round_trip (o : soptions) (s s' : stream) (d : sdata) (evs : list 
 Proof.
   intros. apply decoder_sound_frames. unfold run_frames. eapply quads_stream_valid; eauto.
 Qed.
+
+From PJ.Proofs Require Import EncGraphs.
+
+Theorem graphs_round_trip (o : soptions) (s s' : stream) (d : sdata) (evs : list tev) (delimited : bool) :
+  stream_new GraphStream Generic o = Ok s -> cfg_ok o (st_logical s) ->
+  p_nd (so_params o) = false -> fl_rows (st_flow s) = [] -> forallb wf_quad (d_stmts d) = true ->
+  graphs_stream_frames_generic d s = (s', evs) -> raised evs = None ->
+  exists po ak st0 sk first more,
+    skip_empty (emitted evs) = (sk, first :: more) /\ options_from_frame first delimited = Ok po /\
+    route (po_phys po) = Ok ak /\ decoder_new po = Ok st0 /\
+    flat_obs (decode_frames Generic ak po (emitted evs) st0) = (flat_map event_of_quad (d_stmts d), None).
+Proof.
+  intros. apply decoder_sound_frames. unfold run_frames. eapply graphs_stream_valid; eauto.
+Qed.
